@@ -420,6 +420,9 @@ def run_session(rundir: str, spec: dict) -> dict:
             md = Metadata.create(full, {"name": name, "v": 3}, own)
             assert p.add_credential(bare, md, set()) is not None
             assert p.add_credential(full, md, set()) is not None
+            # ... and once more in its hash-only form (another peer discloses the chain): the stored content stays
+            again = Token.unserialize(full.get_plaintext_signed(), own.pub())
+            assert p.add_credential(again, md, set()) is not None
             creds[name] = (full, md)
         elif kind == "again":
             # ("again", name): the same credential arrives once more (INSERT OR IGNORE path)
